@@ -9,7 +9,16 @@ Arguments rm_mount : simpl never.
 Definition parent_ok (m : list (name * info)) (i : info) : Prop :=
   match i_parent i with
   | None => True
-  | Some p => exists pi, lookup m p = Some pi /\ i_kind pi = KCommitted /\ i_id pi < i_id i
+  | Some p => exists pi, lookup m p = Some pi /\ i_kind pi = KCommitted
+  end.
+
+(* the metadata list is topologically sorted: the parent of an entry lies behind it (new and committed entries are
+   put in front; a parent exists before its child is created / rebased onto it). This is what makes the
+   parent-chain walk terminate; ids are NOT ordered along a chain once a commit may rebase (WithParent). *)
+Fixpoint topo (m : list (name * info)) : Prop :=
+  match m with
+  | [] => True
+  | (n, i) :: t => match i_parent i with None => True | Some p => exists pi, lookup t p = Some pi end /\ topo t
   end.
 
 Record Inv (s : st) : Prop := {
@@ -17,6 +26,7 @@ Record Inv (s : st) : Prop := {
   inv_ids   : NoDup (ids_of (meta s));
   inv_le    : forall n i, In (n, i) (meta s) -> i_id i <= seq s;
   inv_par   : forall n i, In (n, i) (meta s) -> parent_ok (meta s) i;
+  inv_topo  : topo (meta s);
   inv_dirs  : forall id, In (DId id) (dirs s) -> id <= seq s;
   inv_has   : closed s = false -> forall n i, In (n, i) (meta s) -> In (DId (i_id i)) (dirs s);
   inv_mnd   : NoDup (map fst (mounts s));
@@ -97,6 +107,7 @@ Proof.
   - rewrite sh_meta. assumption.
   - rewrite sh_meta. assumption.
   - rewrite sh_meta, sh_seq. assumption.
+  - rewrite sh_meta. assumption.
   - rewrite sh_meta. assumption.
   - rewrite sh_seq. auto.
   - rewrite sh_meta, sh_closed. assumption.
@@ -224,9 +235,20 @@ Qed.
 Lemma parent_ok_cons m key x i : lookup m key = None -> parent_ok m i -> parent_ok ((key, x) :: m) i.
 Proof.
   unfold parent_ok. intros LK H. destruct (i_parent i) as [p|]; auto.
-  destruct H as [pi [L [K Lt]]]. exists pi. split; auto. simpl.
+  destruct H as [pi [L K]]. exists pi. split; auto. simpl.
   destruct (Nat.eqb_spec key p); auto. subst. congruence.
 Qed.
+
+Lemma topo_del m k : topo m -> (forall n j, In (n, j) m -> i_parent j <> Some k) -> topo (del m k).
+Proof.
+  induction m as [|[n i] m IH]; simpl; intros T H; auto. destruct T as [T1 T2].
+  destruct (Nat.eqb_spec n k).
+  - apply IH; auto. intros n1 j F. eapply H; eauto.
+  - simpl. split; [|apply IH; auto; intros n1 j F; eapply H; eauto].
+    destruct (i_parent i) as [p|] eqn:P; auto. destruct T1 as [pi LP]. exists pi.
+    rewrite lookup_del_ne; auto. intros Q; subst. eapply (H n i); eauto.
+Qed.
+
 
 Lemma create_inv s k key parent l s' sn :
   Inv s -> create_snapshot s k key parent l = (s', inr sn) -> Inv s'.
@@ -241,10 +263,10 @@ Proof.
     + apply inv_le0 in F. lia.
   - intros n i [F|F].
     + injection F as Q1 Q2; subst n i. unfold parent_ok. simpl. destruct parent as [p|]; auto.
-      destruct PR as [pi [LP [KP _]]]. exists pi. split; [|split; auto].
-      * destruct (Nat.eqb_spec key p); auto. subst. congruence.
-      * apply lookup_in in LP. apply inv_le0 in LP. lia.
+      destruct PR as [pi [LP [KP _]]]. exists pi. split; auto.
+      destruct (Nat.eqb_spec key p); auto. subst. congruence.
     + apply parent_ok_cons; auto. eapply inv_par0; eauto.
+  - split; [|assumption]. destruct parent as [p|]; auto. destruct PR as [pi [LP _]]. eauto.
   - intros id [F|F].
     + inversion F. lia.
     + apply rm_dirent_in in F. destruct F as [[F|F] N]; [discriminate|].
@@ -268,10 +290,17 @@ Proof.
 Qed.
 
 (* ---------- preservation: commit ---------- *)
+Definition parent_checked (m : list (name * info)) (np : option name) : Prop :=
+  match np with
+  | None => True
+  | Some p => exists pi, lookup m p = Some pi /\ i_kind pi = KCommitted
+  end.
+
 Lemma commit_ok s nm key l r s' :
   commit_active s nm key l r = (s', None) ->
-  closed s = false /\ exists i, lookup (meta s) key = Some i /\ lookup (meta s) nm = None /\ i_kind i = KActive /\
-    s' = set_meta s ((nm, mkI (i_id i) KCommitted (i_parent i) l) :: del (meta s) key).
+  closed s = false /\ exists i np, lookup (meta s) key = Some i /\ lookup (meta s) nm = None /\ i_kind i = KActive /\
+    commit_parent (i_parent i) (l_wp l) = inr np /\ parent_checked (meta s) np /\
+    s' = set_meta s ((nm, mkI (i_id i) KCommitted np l) :: del (meta s) key).
 Proof.
   unfold commit_active. destruct (closed s); [discriminate|].
   destruct (lookup (meta s) key) as [i|] eqn:LK; [|discriminate].
@@ -279,15 +308,27 @@ Proof.
   destruct (bad_name nm); [discriminate|].
   destruct (lookup (meta s) nm) eqn:LN; [discriminate|].
   destruct (kind_eqb (i_kind i) KActive) eqn:KA; simpl; [|discriminate].
-  destruct (match i_parent i with
+  destruct (commit_parent (i_parent i) (l_wp l)) as [e|np] eqn:CP; [discriminate|].
+  assert (PC : match np with
+               | Some p => match lookup (meta s) p with
+                           | Some pi => if kind_eqb (i_kind pi) KCommitted then None else Some EFailedPre
+                           | None => Some ENotFound
+                           end
+               | None => None
+               end = None -> parent_checked (meta s) np).
+  { unfold parent_checked. destruct np as [p|]; auto. destruct (lookup (meta s) p) as [pi|]; [|discriminate].
+    destruct (kind_eqb (i_kind pi) KCommitted) eqn:KC; [|discriminate]. intros _. exists pi. split; auto.
+    destruct (i_kind pi); simpl in KC; congruence. }
+  destruct (match np with
             | Some p => match lookup (meta s) p with
                         | Some pi => if kind_eqb (i_kind pi) KCommitted then None else Some EFailedPre
                         | None => Some ENotFound
                         end
             | None => None
             end); [discriminate|].
-  intros H; inversion H; subst. split; auto. exists i. repeat split; auto.
-  destruct (i_kind i); simpl in KA; congruence.
+  intros H; inversion H; subst. split; auto. exists i, np. split; auto. split; auto. split.
+  - destruct (i_kind i); simpl in KA; congruence.
+  - auto.
 Qed.
 
 Lemma commit_err s nm key l r s' e : commit_active s nm key l r = (s', Some e) -> s' = s.
@@ -298,7 +339,8 @@ Proof.
   destruct (bad_name nm); [intros H; inversion H; auto|].
   destruct (lookup (meta s) nm); [intros H; inversion H; auto|].
   destruct (negb (kind_eqb (i_kind i) KActive)); [intros H; inversion H; auto|].
-  destruct (match i_parent i with
+  destruct (commit_parent (i_parent i) (l_wp l)) as [e0|np]; [intros H; inversion H; auto|].
+  destruct (match np with
             | Some p => match lookup (meta s) p with
                         | Some pi => if kind_eqb (i_kind pi) KCommitted then None else Some EFailedPre
                         | None => Some ENotFound
@@ -307,17 +349,25 @@ Proof.
             end); intros H; inversion H; auto.
 Qed.
 
-Lemma commit_meta_inv s nm key l i :
+Lemma commit_meta_inv s nm key l i np :
   Inv s -> lookup (meta s) key = Some i -> lookup (meta s) nm = None -> i_kind i = KActive ->
-  Inv (set_meta s ((nm, mkI (i_id i) KCommitted (i_parent i) l) :: del (meta s) key)).
+  parent_checked (meta s) np ->
+  Inv (set_meta s ((nm, mkI (i_id i) KCommitted np l) :: del (meta s) key)).
 Proof.
-  intros I LK LN KA. pose proof (lookup_in _ _ _ LK) as IK. destruct I.
+  intros I LK LN KA PCk. pose proof (lookup_in _ _ _ LK) as IK. destruct I.
+  assert (PL : forall p pi, lookup (meta s) p = Some pi -> i_kind pi = KCommitted ->
+               lookup (del (meta s) key) p = Some pi /\ p <> nm).
+  { intros p pi LP KP. split.
+    - rewrite lookup_del_ne; auto. intros Q; subst. rewrite LK in LP. inversion LP; subst. congruence.
+    - intros Q; subst. congruence. }
   assert (PK : forall n j, In (n, j) (meta s) -> parent_ok (meta s) j ->
-               parent_ok ((nm, mkI (i_id i) KCommitted (i_parent i) l) :: del (meta s) key) j).
+               parent_ok ((nm, mkI (i_id i) KCommitted np l) :: del (meta s) key) j).
   { intros n j F P. unfold parent_ok in *. destruct (i_parent j) as [p|]; auto.
-    destruct P as [pi [LP [KP Lt]]]. exists pi. split; auto. simpl.
-    destruct (Nat.eqb_spec nm p); [subst; congruence|].
-    rewrite lookup_del_ne; auto. intros Q; subst. rewrite LK in LP. inversion LP; subst. congruence. }
+    destruct P as [pi [LP KP]]. exists pi. split; auto. simpl.
+    destruct (PL p pi LP KP) as [A B]. destruct (Nat.eqb_spec nm p); [subst; congruence|exact A]. }
+  assert (NK : forall n j, In (n, j) (meta s) -> i_parent j <> Some key).
+  { intros n j F Q. pose proof (inv_par0 _ _ F) as P. unfold parent_ok in P. rewrite Q in P.
+    destruct P as [pi [LP KP]]. rewrite LK in LP. inversion LP; subst. congruence. }
   constructor; simpl.
   - constructor; [|apply del_names_nodup; auto].
     intros F. apply in_map_iff in F. destruct F as [[a b] [Q F]]. simpl in Q; subst.
@@ -329,8 +379,13 @@ Proof.
     + injection F as Q1 Q2; subst n j. simpl. eapply inv_le0; eauto.
     + apply del_in in F. destruct F as [F _]. eapply inv_le0; eauto.
   - intros n j [F|F].
-    + injection F as Q1 Q2; subst n j. pose proof (PK _ _ IK (inv_par0 _ _ IK)) as X. unfold parent_ok in *. simpl. exact X.
+    + injection F as Q1 Q2; subst n j. unfold parent_ok, parent_checked in *. simpl.
+      destruct np as [p|]; auto. destruct PCk as [pi [LP KP]]. exists pi. split; auto.
+      destruct (PL p pi LP KP) as [A B]. destruct (Nat.eqb_spec nm p); [subst; congruence|exact A].
     + apply del_in in F. destruct F as [F _]. eapply PK; eauto.
+  - split; [|apply topo_del; auto].
+    unfold parent_checked in PCk. destruct np as [p|]; auto. destruct PCk as [pi [LP KP]].
+    exists pi. apply (PL p pi LP KP).
   - assumption.
   - intros C n j [F|F].
     + injection F as Q1 Q2; subst n j. simpl. eapply inv_has0; eauto.
@@ -343,7 +398,7 @@ Lemma commit_inv s nm key l r s' x : Inv s -> commit_active s nm key l r = (s', 
 Proof.
   intros I H. destruct x as [e|].
   - apply commit_err in H. subst. exact I.
-  - apply commit_ok in H. destruct H as [_ [i [LK [LN [KA E]]]]]. subst. apply commit_meta_inv; auto.
+  - apply commit_ok in H. destruct H as [_ [i [np [LK [LN [KA [_ [PCk E]]]]]]]]. subst. apply commit_meta_inv; auto.
 Qed.
 
 (* ---------- preservation: metadata removal, label update ---------- *)
@@ -359,10 +414,19 @@ Proof.
     pose proof (inv_par0 _ _ F) as P. unfold parent_ok in *. destruct (i_parent j) as [p|] eqn:PJ; auto.
     destruct P as [pi [LP R]]. exists pi. split; auto. rewrite lookup_del_ne; auto.
     intros Q; subst. eapply has_child_false; eauto.
+  - apply topo_del; auto. apply has_child_false. exact HC.
   - assumption.
   - intros C n j F. apply del_in in F. destruct F as [F _]. eauto.
   - assumption.
   - assumption.
+Qed.
+
+Lemma topo_upd m k l : topo m -> topo (upd_labels m k l).
+Proof.
+  induction m as [|[n i] m IH]; simpl; intros T; auto. destruct T as [T1 T2].
+  assert (X : forall p, (exists pi, lookup m p = Some pi) -> exists pi, lookup (upd_labels m k l) p = Some pi).
+  { intros p [pi LP]. rewrite upd_lookup, LP. eauto. }
+  destruct (Nat.eqb n k); simpl; (split; [|apply IH; exact T2]); destruct (i_parent i); auto.
 Qed.
 
 Lemma update_inv s nm l : Inv s -> Inv (set_meta s (upd_labels (meta s) nm l)).
@@ -373,8 +437,9 @@ Proof.
   - intros n i' F. apply upd_in in F. destruct F as [i [F [Q _]]]. rewrite Q. eauto.
   - intros n i' F. apply upd_in in F. destruct F as [i [F [Q1 [Q2 Q3]]]].
     pose proof (inv_par0 _ _ F) as P. unfold parent_ok in *. rewrite Q3, Q1.
-    destruct (i_parent i) as [p|]; auto. destruct P as [pi [LP [KP Lt]]].
+    destruct (i_parent i) as [p|]; auto. destruct P as [pi [LP KP]].
     rewrite upd_lookup, LP. eexists. split; [reflexivity|]. destruct (Nat.eqb p nm); simpl; auto.
+  - apply topo_upd. assumption.
   - assumption.
   - intros C n i' F. apply upd_in in F. destruct F as [i [F [Q _]]]. rewrite Q. eauto.
   - assumption.
@@ -415,6 +480,7 @@ Proof.
   - rewrite sh_meta. assumption.
   - rewrite sh_meta. assumption.
   - rewrite sh_meta, sh_seq. assumption.
+  - rewrite sh_meta. assumption.
   - rewrite sh_meta. assumption.
   - rewrite sh_seq. auto.
   - discriminate.
